@@ -32,9 +32,9 @@ ASSUMPTIONS = ["a crash is os._exit at the failpoint (no Python-level cleanup ru
                "bounded recovery: the first call after faults stop may recompute, the third must be served"]
 TIMEOUT = 1800
 WORKERS = {"quick": 16, "thorough": 16}
-SCENARIOS_QUICK = ["first", "same_bytes", "override", "exception", "big", "big_small_cache", "array_small_cache"]
+SCENARIOS_QUICK = ["first", "same_bytes", "override", "exception", "big", "big_small_cache", "array_small_cache", "partition_chain"]
 SCENARIOS_ALL = ["first", "same_bytes", "after_forget", "override", "none_override", "partition", "metadata_path",
-                 "memory_cache", "exception", "big", "big_same_bytes", "big_small_cache", "array_small_cache"]
+                 "memory_cache", "exception", "big", "big_same_bytes", "big_small_cache", "array_small_cache", "partition_chain"]
 VARIANTS = ["crash-before", "crash-mid", "error", "error-write", "fsize"]
 BIG = 300 * 1024
 
@@ -59,6 +59,9 @@ def table(scenario):
         return lambda: InMemoryPartition({"a": 1, "b": "x" * 30, "c": [1, 2]})
     if scenario == "exception":
         return ("__raise__", ValueError, ("scenario failure",))
+    if scenario == "partition_chain":  # a partition whose merge parent is computed (and memoized) inside the same call
+        return [{"kind": "mem", "make": lambda: {"a": 1, "b": 2, "c": "x" * 20}, "container": "dict"},
+                {"kind": "mem", "make": lambda: {"b": 3, "z": 26}, "container": "dict"}]
     if scenario.startswith("big"):
         return "big-" + "y" * BIG
     if scenario == "array_small_cache":  # larger than the cache, and the callers keep what they were handed
@@ -79,6 +82,8 @@ def expected(scenario):
         return ("ret", InMemoryPartition({"a": 1, "b": "x" * 30, "c": [1, 2]}))
     if scenario == "exception":
         return ("raise", "ValueError")
+    if scenario == "partition_chain":
+        return ("ret", InMemoryPartition({"a": 1, "b": 3, "c": "x" * 20, "z": 26}))
     if scenario.startswith("big"):
         return ("ret", "big-" + "y" * BIG)
     if scenario == "array_small_cache":
@@ -100,6 +105,26 @@ def install(root, scenario):
 
 
 _KEPT = []
+
+
+def fn_f(scenario):
+    from vf import ffuncs
+
+    if scenario == "partition_chain":
+        return lambda s_: ffuncs.chain(s_, 1)
+    return ffuncs.produce
+
+
+def fn_g(scenario):
+    """A second function producing byte-identical results."""
+    from vf import ffuncs
+
+    if scenario == "partition_chain":
+        return lambda s_: ffuncs.passthru(s_, 1)
+    return ffuncs.produce2
+
+
+FIRST_RUNS = {"partition_chain": 2}  # bodies run by the first call on an empty store (the parent is computed inside)
 
 
 def outcome(fn, scenario):
@@ -165,7 +190,7 @@ def faulted_child(arg):
         resource.setrlimit(resource.RLIMIT_FSIZE, (fault["limit"], hard))
         f.active = True
         try:
-            first = outcome(ffuncs.produce, scenario)
+            first = outcome(fn_f(scenario), scenario)
         finally:
             resource.setrlimit(resource.RLIMIT_FSIZE, (soft, hard))
         f.active = False
@@ -173,7 +198,7 @@ def faulted_child(arg):
     else:
         f.armed = fault
         f.active = True
-        first = outcome(ffuncs.produce, scenario)
+        first = outcome(fn_f(scenario), scenario)
         f.active = False
     res = {"ops": f.log, "fired": f.fired, "first": first}
     if arg.get("snapshot"):
@@ -186,8 +211,8 @@ def faulted_child(arg):
                     final[rel] = fh.read().hex()
         res["final"] = final
     # the process lives on after an injected error: the same calls again, and the twin function
-    res["same_process"] = [outcome(ffuncs.produce, scenario), outcome(ffuncs.produce2, scenario),
-                           outcome(ffuncs.produce, scenario), outcome(ffuncs.produce2, scenario)]
+    res["same_process"] = [outcome(fn_f(scenario), scenario), outcome(fn_g(scenario), scenario),
+                           outcome(fn_f(scenario), scenario), outcome(fn_g(scenario), scenario)]
     return res
 
 
@@ -195,7 +220,7 @@ def recovery_child(arg):
     from vf import ffuncs
 
     install(arg["root"], arg["scenario"])
-    return {"f": outcome(ffuncs.produce, arg["scenario"]), "g": outcome(ffuncs.produce2, arg["scenario"])}
+    return {"f": outcome(fn_f(arg["scenario"]), arg["scenario"]), "g": outcome(fn_g(arg["scenario"]), arg["scenario"])}
 
 
 # ---------------------------------------------------------------- enumeration
@@ -253,7 +278,7 @@ def run_case(case):
 
     with env.Scratch() as sc:
         prof = procs.in_child(faulted_child, {"root": sc.path("profile"), "scenario": scenario, "snapshot": True})
-        if not prof["first"][0] or prof["first"][1] != 1 or not all(o[0] for o in prof["same_process"]):
+        if not prof["first"][0] or prof["first"][1] != FIRST_RUNS.get(scenario, 1) or not all(o[0] for o in prof["same_process"]):
             raise RuntimeError("profiling run of scenario %s misbehaves: %s" % (scenario, prof))
         ops = prof["ops"]
         for _, kind, rel, _src in ops:
